@@ -97,6 +97,9 @@ structure Config where
   dfltRcmd  : Option Str
   dfltPath  : Str
   structOk  : Bool                -- target list given, operands fit, no unknown option / missing argument
+  wTypes    : List Str := []      -- transports given for single targets (`rcmd_type:hosts` words of -w)
+  wUsers    : List Str := []      -- remote users given for single targets (`user@hosts` words of -w)
+  wMalformed : Bool := false      -- a -w word not of the form [rcmd_type:][user@]hosts
   deriving Repr
 
 inductive Obs where
@@ -144,6 +147,8 @@ def Config.refusable (c : Config) : Bool :=
   (match c.utmo.env with | some t => !numMustAccept .timeout t | none => false) ||
   (match c.ruser with | some u => decide (u.length + 1 > c.loginMax) | none => false) ||
   (match c.rcmd.chosen with | some (_, t) => !(c.avail.contains t) | none => false) ||
+  c.wMalformed || c.wTypes.any (fun t => !(c.avail.contains t)) ||
+  c.wUsers.any (fun u => decide (u.length + 1 > c.loginMax)) ||
   c.execConflict
 
 /-- every clause of the property text that the observation violates -/
@@ -167,6 +172,10 @@ def judge (c : Config) : Obs → List String
     (match c.rcmd.chosen with
       | some (src, t) => if c.avail.contains t then [] else [s!"rcmd:{src.name}:unknown:accepted"]
       | none => []) ++
+    (if c.wMalformed then ["hostspec:malformed:accepted"] else []) ++
+    -- the same two rules for values given per target in the target list
+    (if c.wTypes.any (fun t => !(c.avail.contains t)) then ["rcmd:wcoll:unknown:accepted"] else []) ++
+    (if c.wUsers.any (fun u => decide (u.length > c.loginMax)) then ["ruser:wcoll:overlong:accepted"] else []) ++
     strClause "rcmd" c.rcmd (c.dfltRcmd.getD "none".toList) rc ++
     (if c.pcp then strClause "path" c.path c.dfltPath pa else [])
 
